@@ -469,8 +469,13 @@ func (p c20) run(c *core.C, t *core.T, cs c20Case) {
 	}
 	switch {
 	case opErr != nil:
-		if !expectFail && !hostile {
+		// (a control file that is a symbolic link may be refused - the statement does not say that links are
+		// followed; what it says about a failed operation is checked below all the same)
+		if !expectFail && !hostile && !cs.Link {
 			c.Failf("%s(%s) failed without an injected fault: %v (names %q)", cs.Op, cs.Handle, opErr, cs.Names)
+		}
+		if cs.Link {
+			c.Cover("handle:control-file-is-a-symlink:refused")
 		}
 		if cs.Op != "Remove" {
 			if h, ok := after[ctlRelDst]; ok && h != "dir" && !(cs.Pre && h == before[ctlRelDst]) {
